@@ -7,6 +7,8 @@ FUNCTIONS = ["RefCount.append", "RefCount.extend", "RefCount.remove", "Manager.r
 # refresh rebuilds the indices from the registered tasks (C17)
 # load replaces / adds definitions through unregister + register and keeps the index invariant (C17)
 BORROW = [('C17', ['Manager.refresh', 'Manager.load'])]
+# code-independent lemmas behind the SMT axioms (counting lemma, prefix-count equations, finite sums, history independence): checked by Lean 4 + Mathlib
+LEMMAS = ["lemmas/Counting.lean", "lemmas/Sums.lean"]
 RAC = "rac/c03.py"
 RAC_BUDGET = {"quick": 60, "thorough": 900}
 RAC_MIN = {"quick": 2912, "thorough": 2912}      # fewer run-time evaluations than this = the harness skipped its work: checker broken, not "held"
@@ -14,8 +16,11 @@ DESIGN_REF = "DESIGN.md section 4, C03"
 TECHNIQUE = "contract-based deductive verification (pyvc VC generation from the real AST, z3/cvc5) + run-time contracts on exhaustive short histories"
 TRUSTED = [
     "CPython dict/set/defaultdict semantics via pyvc library models (pyvc/values.py)",
-    "counting lemma: prefix count over a duplicate-free enumeration of A of membership in B equals |A n B| (lemmas/Counting.lean)",
-    "rdeps_sum is a finite sum of 0/1 terms (add/remove one summand, dominates each summand, non-negative)",
+    "counting lemma (prefix count over a duplicate-free enumeration of A of membership in B equals |A n B|), the defining equations / monotonicity of the "
+    "prefix count, the finite-sum facts about rdeps_sum (empty, add / remove one summand, dominates each summand) and history independence (exact +delta / "
+    "-delta steps give the sum over the final task set) are PROVED in lemmas/Counting.lean and lemmas/Sums.lean and re-checked by Lean 4 + Mathlib in this "
+    "check (evidence: lemmas_checked); trusted: that the SMT axioms in contracts/tasks.py are these theorems instantiated (sets as characteristic "
+    "arrays, the enumeration as the loop's iteration order)",
     "z3 / cvc5", "Cython compiles refs.py (RefCount) faithfully",
     "the constructor call Manager() runs Manager.__init__ on a fresh object (Manager.__init__ is proved: no tasks, empty indices, thawed)",
     "Manager.cleanup is the identity on the abstract index state (absent == empty entry); checked at run time on supports",
